@@ -311,7 +311,7 @@ def specs(tier):
     out = []
     for degs in [[1, 1, 1], [2, 1], [3, 1]] + ([[1] * 5, [1, 2, 1], [2, 2], [3, 3], [2, 3, 1]] if tier != "quick" else []):
         out.append(dict(module=Mo, scenario="PlotChain", params=dict(degrees=degs), time_budget=60 if tier == "quick" else 900, digest_tol="1e-5"))
-    for s in ["penta", "cw:penta", "hollow", "two", "inv:two", "framedot", "empty", "whole"] + (["inv:hollow", "inv:framedot", "ell", "opring"] if tier != "quick" else []):
+    for s in ["penta", "cw:penta", "hollow", "two", "inv:two", "inv:hollow", "framedot", "empty", "whole"] + (["inv:framedot", "ell", "opring"] if tier != "quick" else []):
         out.append(dict(module=Mo, scenario="PlotShape", params=dict(shape=s), digest_tol="1e-5"))
     return out
 
